@@ -115,7 +115,15 @@ func hasKey(items []string, k int) bool {
 	return false
 }
 
-func runCase(ctx context.Context, s *hx.Session, tc tcase) error {
+func runCase(ctx context.Context, s *hx.Session, tc tcase) (err error) {
+	// a panic anywhere inside one case (harness or real code on this goroutine) is recorded against that case and the
+	// run goes on
+	defer func() {
+		if p := recover(); p != nil {
+			s.Fail("C04/panic-in-case", "a case of the harness panicked", fmt.Sprintf("%s: %v", tc.name, p))
+			err = nil
+		}
+	}()
 	hdr := fmt.Sprintf("%s slot=%d writers=%d", tc.name, tc.sc.Slot, len(tc.sc.Writers))
 	o, err := occ4.Drive(ctx, s, tc.sc, tc.sched, hdr, tc.root)
 	if err != nil {
@@ -185,6 +193,9 @@ func runCase(ctx context.Context, s *hx.Session, tc tcase) error {
 		default:
 			s.Fail("C04/commit-failed:"+r, "a writer with changes disjoint from all others did not commit", detail)
 		}
+	}
+	for _, rp := range o.ReaderPanics {
+		s.Fail("C04/panic-in-cold-"+occ4.PanicSlug(rp), "a new transaction reading the store after these commits panics inside the B-tree", detail+" "+rp.Error())
 	}
 	s.Hit("values:" + tc.sc.ValMode())
 	if o.OrphanBlobs > 0 {
